@@ -50,7 +50,12 @@ Proof.
   - destruct (length es); inversion H; subst; contradiction.
   - inversion H; subst. change (pdepth p < S (list_max (map pdepth ps)))%nat.
     pose proof (list_max_in' pdepth ps p Hin). lia.
-  - destruct ss; [inversion H; subst; contradiction|]. destruct (1 <=? s_pcount s); discriminate.
+  - destruct ss as [|s0 ss']; [inversion H; subst; contradiction|].
+    destruct (1 <=? s_pcount s0); [|discriminate]. inversion H; subst.
+    change (In p (map (fun e : strct => read_ptr e 0) (s0 :: ss'))) in Hin.
+    apply in_map_iff in Hin as (e & <- & He).
+    change (pdepth (read_ptr e 0) < S (list_max (map sdepth (s0 :: ss'))))%nat.
+    pose proof (read_ptr_depth e 0 ltac:(lia)). pose proof (list_max_in' sdepth (s0 :: ss') e He). lia.
 Qed.
 
 Lemma sdepth_nop db d pf : sdepth (Strct db d 0 pf) = 0%nat.
